@@ -180,7 +180,8 @@ def c01_term(fam, t, st: Stats):
                 if verdict[0] == "ok":
                     continue
                 if verdict[0] == "f5":
-                    st.known_hit("F5", f"{M.show(t)} at {env}: {verdict[1]}")
+                    st.known_hit("F5", f"{M.show(t)} at {env}: {verdict[1]}", key=(M.show(t), sorted(env.items())),
+                                 case=case(t, env, label, route, repr(r), o, verdict[1]))
                     continue
                 st.violation(case(t, env, label, route, repr(r), o, verdict[1]))
         if nontrivial:
